@@ -4,7 +4,7 @@
 cd "$(dirname "$0")/.."
 pat="${1:-}"
 tmp=$(mktemp /tmp/seedres-XXXXXX)
-ls -d seeded/C*/ | grep "$pat" | xargs -P 5 -I{} bash -c 'd={}; n=$(basename $d); c=${n%%-*}; out=$(MUT_LINES=3 tools/mutant.sh $d/patch.diff $c 2>&1 | head -4 | tr "\n" " " | cut -c1-260); echo "$n: $out"' | tee $tmp
+ls -d seeded/C*/ | grep "$pat" | xargs -P ${SEED_JOBS:-8} -I{} bash -c 'd={}; n=$(basename $d); c=${n%%-*}; out=$(MUT_LINES=3 tools/mutant.sh $d/patch.diff $c 2>&1 | head -4 | tr "\n" " " | cut -c1-260); echo "$n: $out"' | tee $tmp
 python3 - "$tmp" <<'PY'
 import json, re, sys
 res = {}
@@ -20,6 +20,12 @@ if os.path.exists('seeded/RESULTS.json'):
     res = dict((k, v) for k, v in old.items() if os.path.isdir('seeded/' + k))
 json.dump({'tier': 'quick', 'results': res, 'detected': sum(1 for v in res.values() if v['detected']), 'total': len(res)},
           open('seeded/RESULTS.json', 'w'), indent=1, sort_keys=True)
+for name, v in res.items():
+    mp = 'seeded/%s/meta.json' % name
+    if os.path.exists(mp):
+        meta = json.load(open(mp))
+        meta['check_result_current'] = {'detected': v['detected'], 'first_bucket': v['first_bucket'], 'tier': 'quick'}
+        json.dump(meta, open(mp, 'w'), indent=1)
 print('detected', sum(1 for v in res.values() if v['detected']), 'of', len(res))
 PY
 rm -f $tmp
